@@ -43,7 +43,7 @@ func main() {
 		histMain()
 		return
 	}
-	Main("C15", checkC15, iogen.Gen, stateGen)
+	Main("C15", checkC15, stateGen, iogen.Gen)
 }
 
 // ------------------------------------------------------------------ inputs
